@@ -993,14 +993,13 @@ Qed.
    wide margin (see [default_caps_never_saturate]). *)
 Lemma derived_bounds_unsaturated c k :
   caps_wf k -> counts_wf c -> counts_consistent c ->
-  Forall (fun x => fc_locals x <= n_locals c) (per_fn c) ->
   (forall m, metric_index m < metric_index MSummary -> trips c k m = false) ->
   summary_exact (max_functions k) (max_locals k) <= u64_max ->
   (max_total_blocks k * 2 + max_total_ops k) * max_locals k <= u64_max ->
   summary_event_bound (n_functions c) (n_locals c) = summary_exact (n_functions c) (n_locals c) /\
   liveness_event_bound (per_fn c) = liveness_exact (per_fn c).
 Proof.
-  intros Hk Hc (Hops & Hblocks & _ & _) Hloc Hpre HS HL.
+  intros Hk Hc (Hops & Hblocks & _ & Hloc) Hpre HS HL.
   assert (HtF : trips c k MFunctions = false) by (apply Hpre; cbn; lia).
   assert (HtL : trips c k MLocals = false) by (apply Hpre; cbn; lia).
   assert (HtO : trips c k MCfgOps = false) by (apply Hpre; cbn; lia).
@@ -1060,6 +1059,39 @@ Lemma flat_map_repeat_single (A B : Type) (f : A -> list B) x y n :
   f x = [y] -> flat_map f (repeat x n) = repeat y n.
 Proof. intros H. induction n; cbn; [reflexivity|]. rewrite H, IHn. reflexivity. Qed.
 
+Lemma walk_span_repeat_fn n : forall s,
+  fold_left (fun s x => walk_span x s) (repeat (SFn 0 []) n) s = s.
+Proof.
+  induction n as [|n IH]; intros s; cbn [repeat fold_left]; [reflexivity|].
+  rewrite <- (IH s) at 2. f_equal. destruct s. cbn. f_equal. lia.
+Qed.
+
+Lemma local_range_len_repeat_fn n : local_range_len 0 (repeat (SFn 0 []) n) = 0.
+Proof. unfold local_range_len. rewrite walk_span_repeat_fn. reflexivity. Qed.
+
+Lemma walk_span_repeat_decl n : forall nx lo hi, 0 <= nx -> (lo < 0 \/ 0 <= lo <= nx) ->
+  fold_left (fun s x => walk_span x s) (repeat (SDecl 0) (S n)) (mkSpan nx lo hi)
+  = mkSpan (nx + Z.of_nat (S n)) (if lo <? 0 then nx else lo) (nx + Z.of_nat n).
+Proof.
+  induction n as [|n IH]; intros nx lo hi Hnx Hlo.
+  - cbn. f_equal; lia.
+  - change (repeat (SDecl 0) (S (S n))) with (SDecl 0 :: repeat (SDecl 0) (S n)).
+    cbn [fold_left walk_span ls_next ls_lo ls_hi].
+    rewrite IH; [|lia|right; destruct (Z.ltb_spec lo 0); lia].
+    f_equal; try lia.
+    destruct (Z.ltb_spec lo 0) as [H|H].
+    + destruct (Z.ltb_spec nx 0); [lia|reflexivity].
+    + destruct (Z.ltb_spec lo 0); [lia|reflexivity].
+Qed.
+
+Lemma local_range_len_repeat_decl n : local_range_len 0 (repeat (SDecl 0) n) = Z.of_nat n.
+Proof.
+  unfold local_range_len. destruct n as [|n]; [reflexivity|].
+  change (0 <? 0) with false. cbv iota.
+  rewrite walk_span_repeat_decl by lia. cbn [ls_lo ls_hi]. change (-1 <? 0) with true. cbv iota.
+  change (0 <? 0) with false. cbv iota. lia.
+Qed.
+
 (* n empty functions at top level *)
 Lemma empty_functions_program n :
   counts_of_program (repeat (SFn 0 []) n)
@@ -1071,13 +1103,14 @@ Proof.
   assert (En : flat_map nested_fns (repeat (SFn 0 []) n) = []).
   { apply flat_map_repeat_nil. reflexivity. }
   assert (Er : fn_entry 0 (repeat (SFn 0 []) n) = mkFn 2 (Z.of_nat n) 0).
-  { unfold fn_entry, count_body, own_locals_block.
+  { unfold fn_entry, count_body.
     rewrite count_block_repeat_simple; [|intros s Hs; destruct s; cbn in *; subst; reflexivity|reflexivity].
-    rewrite fold_sum_repeat. cbn. f_equal; lia. }
+    rewrite local_range_len_repeat_fn. cbn [fst snd cs_blocks cs_ops]. f_equal; lia. }
   rewrite Ed, En, Er, app_nil_r. unfold sum_block. rewrite !fold_sum_repeat.
   rewrite !sum_of_cons, !sum_of_repeat.
   change (scopes_in (SFn 0 [])) with 2. change (stmts_in (SFn 0 [])) with 1.
-  change (calls_in (SFn 0 [])) with 0. cbn [fc_blocks fc_ops fc_locals].
+  change (calls_in (SFn 0 [])) with 0. change (total_locals (SFn 0 [])) with 0.
+  cbn [fc_blocks fc_ops fc_locals].
   f_equal; lia.
 Qed.
 
@@ -1092,12 +1125,12 @@ Proof.
   assert (En : flat_map nested_fns (repeat (SDecl 0) n) = []).
   { apply flat_map_repeat_nil. reflexivity. }
   assert (Er : fn_entry 0 (repeat (SDecl 0) n) = mkFn 2 (Z.of_nat n) (Z.of_nat n)).
-  { unfold fn_entry, count_body, own_locals_block.
+  { unfold fn_entry, count_body.
     rewrite count_block_repeat_simple; [|intros s Hs; destruct s; cbn in *; subst; reflexivity|reflexivity].
-    rewrite fold_sum_repeat. cbn. f_equal; lia. }
+    rewrite local_range_len_repeat_decl. cbn [fst snd cs_blocks cs_ops]. f_equal; lia. }
   rewrite Ed, En, Er. cbn [app]. unfold sum_block. rewrite !fold_sum_repeat.
   change (scopes_in (SDecl 0)) with 0. change (stmts_in (SDecl 0)) with 1.
-  change (calls_in (SDecl 0)) with 0.
+  change (calls_in (SDecl 0)) with 0. change (total_locals (SDecl 0)) with 1.
   unfold sum_of. cbn [fold_left fc_blocks fc_ops fc_locals]. f_equal; lia.
 Qed.
 
